@@ -88,15 +88,33 @@ PerVerdict(env, T, v, o) ==
                                           \o " applicable:" \o ToString(RtApplicable(env, T, v, o.codec)))
 
 ------------------------------------------------------------------------------
+(* C06: OER output is the X.696 encoding                                    *)
+
+OerVerdict(env, T, v, o) ==
+  IF o.enc.st # "ok" THEN V("OER", "skip", "no encoding")
+  ELSE IF ~Admits(env, T, v) THEN V("OER", "skip", "value not admitted")
+  ELSE LET b == o.enc.b
+           std == OerEncode(env, T, v, {})
+       IN IF b = std \/ b = OerEncode(env, T, v, {"OptOerNamedBitsAsGiven"}) THEN V("OER", "ok", "")
+          ELSE LET ex1 == Explaining(LAMBDA S : OerEncode(env, T, v, S), b, OerDevs)
+                   ex == IF ex1 # "none" THEN ex1
+                         ELSE Explaining(LAMBDA S : OerEncode(env, T, v, S \cup {"OptOerNamedBitsAsGiven"}), b, OerDevs)
+               IN IF ex # "none" THEN V("OER", "dev", ex)
+                  ELSE V("OER", "reject", "differs from X.696; expected " \o ToString(std)
+                                          \o " applicable:" \o ToString(RtApplicable(env, T, v, o.codec)))
+
+------------------------------------------------------------------------------
 (* C16: a strict prefix of an encoding is a decode error                    *)
 
-PrefixVerdict(o) ==
+PrefixVerdict(env, T, v, o) ==
+  LET app == ToString(RtApplicable(env, T, v, o.codec)) IN
   IF ~Has(o, "pre") THEN V("PREFIX", "skip", "no prefixes recorded")
   ELSE LET bad == SelectSeq(o.pre, LAMBDA e : ~(e.o.st = "exc" /\ InMro(e.o, "asn1tools.errors.DecodeError")))
        IN IF bad = <<>> THEN V("PREFIX", "ok", "")
           ELSE V("PREFIX", "reject",
-                 "prefix " \o ToString(bad[1].k) \o " of " \o ToString(Len(o.enc.b)) \o ": " \o
-                 (IF bad[1].o.st = "ok" THEN "decoded to a value" ELSE ExcKey("dec", bad[1].o)))
+                 (IF bad[1].o.st = "ok" THEN "decoded to a value" ELSE ExcKey("dec", bad[1].o))
+                 \o " at prefix " \o ToString(bad[1].k) \o " of " \o ToString(Len(o.enc.b))
+                 \o " applicable:" \o app)
 
 ------------------------------------------------------------------------------
 
@@ -109,7 +127,8 @@ ObsVerdicts(L, o) ==
        IN (IF "RT" \in Checks THEN <<RtVerdict(env, T, v, o)>> ELSE <<>>)
           \o (IF "DER" \in Checks /\ o.codec = "der" THEN <<DerVerdict(env, T, v, o)>> ELSE <<>>)
           \o (IF "PER" \in Checks /\ o.codec \in {"per", "uper"} THEN <<PerVerdict(env, T, v, o)>> ELSE <<>>)
-          \o (IF "PREFIX" \in Checks THEN <<PrefixVerdict(o)>> ELSE <<>>)
+          \o (IF "OER" \in Checks /\ o.codec = "oer" THEN <<OerVerdict(env, T, v, o)>> ELSE <<>>)
+          \o (IF "PREFIX" \in Checks THEN <<PrefixVerdict(env, T, v, o)>> ELSE <<>>)
 
 LineReport(L) ==
   LET per == [j \in 1..Len(L.obs) |->
